@@ -146,7 +146,7 @@ func c10Gen(rt *rapid.T) c10Case {
 	if !isFloat(c.dt) && c.op != "Not" && rapid.IntRange(0, 2).Draw(rt, "preferFloat") > 0 {
 		c.dt = rapid.SampledFrom([]tensor.Dtype{tensor.Float32, tensor.Float64}).Draw(rt, "fdtype")
 	}
-	shape := genShape(0, 4, 5, 200).Draw(rt, "shape")
+	shape := genShape(0, 4, 5, 1500).Draw(rt, "shape")
 	c.x = genTensor(c.dt, shape, true).Draw(rt, "x")
 	if b := c10Boundary[c.op]; len(b) > 0 && isFloat(c.dt) && rapid.Bool().Draw(rt, "boundary") {
 		// overwrite a few elements with boundary arguments of this function
